@@ -11,6 +11,11 @@ pub fn string_starts_with_char(t: &String, c: char) -> (r: bool)
     ensures r == (t@.len() > 0 && t@[0] == c)
 { t.starts_with(c) }
 
+#[verifier::external_body]
+pub fn string_ends_with_char(t: &String, c: char) -> (r: bool)
+    ensures r == (t@.len() > 0 && t@[t@.len() - 1] == c)
+{ t.ends_with(c) }
+
 pub mod stdshim {
     pub mod path {
         use vstd::prelude::*;
